@@ -90,12 +90,53 @@ pub fn crash_child(args: &[String]) -> i32 {
                 let r = store.checkpoint(format!("cp{}", ncp));
                 mark(MARK_END);
                 let listed: Vec<String> = store.list_checkpoints().into_iter().map(|c| c.id).collect();
-                let res = match r {
+                let res = match &r {
                     Ok(id) => json!({"result": "ok", "id": id, "listed": listed}),
                     Err(e) => json!({"result": "err", "error": format!("{}", e), "listed": listed}),
                 };
                 if std::fs::write(meta.join("result"), res.to_string()).is_err() {
                     return 4;
+                }
+                if args.get(3).map(|s| s.as_str()) == Some("survive") {
+                    // the process survived the victim call: carry on with the same store
+                    let mut successes: Vec<String> = ids.lines().map(|l| l.to_string()).collect();
+                    let victim_ok = match &r {
+                        Ok(id) => {
+                            successes.push(id.clone());
+                            true
+                        }
+                        Err(_) => false,
+                    };
+                    let n = h.max_checkpoints.max(1);
+                    let mut rounds = Vec::new();
+                    for j in 0..n {
+                        if virt {
+                            now += 1;
+                            clock::set_ms(now);
+                        } else {
+                            std::thread::sleep(std::time::Duration::from_millis(2));
+                        }
+                        let _ = store.put(h.keys[0].clone(), Value::String(format!("after-the-fault-{}", j)));
+                        match store.checkpoint(format!("post{}", j)) {
+                            Ok(id) => successes.push(id),
+                            Err(e) => {
+                                rounds.push(json!({"round": j, "follow_up_checkpoint_error": format!("{}", e)}));
+                                continue;
+                            }
+                        }
+                        // what retention still owes: the last n successful checkpoints
+                        let owed: Vec<String> = successes.iter().rev().take(n).cloned().collect();
+                        let mut restores = Vec::new();
+                        for id in owed.iter().rev() {
+                            let res = store.restore(id);
+                            restores.push(json!({"id": id, "ok": res.is_ok(), "error": res.err().map(|e| format!("{}", e))}));
+                        }
+                        rounds.push(json!({"round": j, "successful_so_far": successes, "owed": owed, "restores": restores}));
+                    }
+                    let rep = json!({"victim_ok": victim_ok, "max_checkpoints": n, "rounds": rounds});
+                    if std::fs::write(meta.join("survivor"), rep.to_string()).is_err() {
+                        return 4;
+                    }
                 }
             }
         }
@@ -348,6 +389,9 @@ pub enum Fault {
     Kill { syscall: String, nth: usize },
     /// the nth syscall of this kind inside the window fails with errno
     Errno { syscall: String, nth: usize, errno: String },
+    /// as `Errno`, but the process carries on with the same store afterwards: a few more writes
+    /// and checkpoints, then every checkpoint the retention rule still owes is restored
+    ErrnoSurvive { syscall: String, nth: usize, errno: String },
     /// victim's state file cut to its first `offset` bytes
     Truncate { offset: usize },
     /// victim's state file keeps its first `offset` bytes, the rest reads as zero bytes
@@ -364,6 +408,9 @@ impl Fault {
             Fault::Errno { syscall, nth, errno } => {
                 json!({"type": "errno", "syscall": syscall, "nth_in_window": nth, "errno": errno})
             }
+            Fault::ErrnoSurvive { syscall, nth, errno } => {
+                json!({"type": "errno-then-carry-on", "syscall": syscall, "nth_in_window": nth, "errno": errno})
+            }
             Fault::Truncate { offset } => json!({"type": "truncate", "offset": offset}),
             Fault::ZeroFill { offset } => json!({"type": "zero-fill", "offset": offset}),
             Fault::DirState { state } => json!({"type": "dir-state", "state": state}),
@@ -376,6 +423,7 @@ impl Fault {
             "none" => Fault::None,
             "kill" => Fault::Kill { syscall: s("syscall")?, nth: n("nth_in_window")? },
             "errno" => Fault::Errno { syscall: s("syscall")?, nth: n("nth_in_window")?, errno: s("errno")? },
+            "errno-then-carry-on" => Fault::ErrnoSurvive { syscall: s("syscall")?, nth: n("nth_in_window")?, errno: s("errno")? },
             "truncate" => Fault::Truncate { offset: n("offset")? },
             "zero-fill" => Fault::ZeroFill { offset: n("offset")? },
             "dir-state" => Fault::DirState { state: s("state")? },
@@ -496,6 +544,10 @@ pub fn fresh_run_dirs(scratch: &Path) -> std::io::Result<RunDirs> {
 
 /// Run the crash child under strace with an optional `-e inject=` expression.
 pub fn run_child(scen_path: &Path, d: &RunDirs, inject: Option<&str>) -> Result<(child::ChildOutcome, Trace), String> {
+    run_child_mode(scen_path, d, inject, false)
+}
+
+pub fn run_child_mode(scen_path: &Path, d: &RunDirs, inject: Option<&str>, survive: bool) -> Result<(child::ChildOutcome, Trace), String> {
     let exe = std::env::current_exe().map_err(|e| e.to_string())?;
     let mut cmd = Command::new("strace");
     cmd.arg("-o").arg(&d.log).arg("-e").arg(TRACE_SET);
@@ -508,6 +560,9 @@ pub fn run_child(scen_path: &Path, d: &RunDirs, inject: Option<&str>) -> Result<
         .arg(scen_path)
         .arg(&d.store)
         .arg(&d.meta);
+    if survive {
+        cmd.arg("survive");
+    }
     let o = child::run_cmd(cmd, b"", &child::Limits { cpu_s: 30, as_bytes: None, wall_s: 300.0, stack_bytes: None })
         .map_err(|e| format!("cannot run strace: {}", e))?;
     let t = parse_trace(&d.log);
@@ -898,6 +953,11 @@ pub fn strace_faults(f: &Family) -> Vec<Fault> {
             out.push(Fault::Errno { syscall: k.clone(), nth: *w, errno: e.to_string() });
         }
     }
+    // the process carrying on after the failed call: one errno is enough (the code under test
+    // does not look at which error it was)
+    for (k, _g, w) in &f.window {
+        out.push(Fault::ErrnoSurvive { syscall: k.clone(), nth: *w, errno: "ENOSPC".to_string() });
+    }
     out
 }
 
@@ -921,7 +981,7 @@ pub fn run_strace_fault(f: &Family, fault: &Fault, scratch: &Path) -> Outcome {
 fn run_strace_fault_once(f: &Family, fault: &Fault, scratch: &Path) -> Outcome {
     let (kind, nth, inject_tail) = match fault {
         Fault::Kill { syscall, nth } => (syscall.clone(), *nth, "signal=SIGKILL".to_string()),
-        Fault::Errno { syscall, nth, errno } => (syscall.clone(), *nth, format!("error={}", errno)),
+        Fault::Errno { syscall, nth, errno } | Fault::ErrnoSurvive { syscall, nth, errno } => (syscall.clone(), *nth, format!("error={}", errno)),
         _ => return Outcome::Inconclusive("not a strace fault".into()),
     };
     let Some((_, global, _)) = f.window.iter().find(|(k, _, w)| *k == kind && *w == nth) else {
@@ -932,7 +992,7 @@ fn run_strace_fault_once(f: &Family, fault: &Fault, scratch: &Path) -> Outcome {
         Err(e) => return Outcome::Inconclusive(format!("cannot create scratch dirs: {}", e)),
     };
     let inject = format!("{}:{}:when={}", kind, inject_tail, global);
-    let r = run_child(&f.scen_path, &d, Some(&inject));
+    let r = run_child_mode(&f.scen_path, &d, Some(&inject), matches!(fault, Fault::ErrnoSurvive { .. }));
     let out = (|| {
         let (o, t) = match r {
             Ok(x) => x,
@@ -999,6 +1059,35 @@ fn run_strace_fault_once(f: &Family, fault: &Fault, scratch: &Path) -> Outcome {
                     Some(fl) => Outcome::Violation(fl),
                     None => Outcome::Held,
                 }
+            }
+            Fault::ErrnoSurvive { errno, .. } => {
+                let injected = t.calls.iter().any(|(_, l)| l.contains("(INJECTED)"));
+                if !injected {
+                    return Outcome::Inconclusive(format!("scenario {:?}: {} at {} #{} was not injected ({})", f.scen.name, errno, kind, nth, o.describe()));
+                }
+                if !o.ok() || t.end.is_none() {
+                    return Outcome::HeldChildDied;
+                }
+                let rep = std::fs::read_to_string(d.meta.join("survivor")).ok().and_then(|t| serde_json::from_str::<Json>(&t).ok());
+                let Some(rep) = rep else {
+                    return Outcome::Inconclusive(format!("scenario {:?}: the surviving child left no report", f.scen.name));
+                };
+                let victim = if rep["victim_ok"].as_bool() == Some(true) { "returned-ok" } else { "returned-err" };
+                for round in rep["rounds"].as_array().cloned().unwrap_or_default() {
+                    for r in round["restores"].as_array().cloned().unwrap_or_default() {
+                        if r["ok"].as_bool() != Some(true) {
+                            return Outcome::Violation(Failure {
+                                clause: "restore-reproduces".into(),
+                                cause: format!("checkpoint-owed-by-retention-lost-after-an-io-error-in-a-checkpoint-call|victim-{}", victim),
+                                detail: format!(
+                                    "io-error {} at syscall {} #{} of a checkpoint call ({}); the process carried on: after follow-up round {} the successful checkpoints were {}, retention (max_checkpoints {}) still owes {}, but restore({}) failed: {}",
+                                    errno, kind, nth, victim, round["round"], round["successful_so_far"], rep["max_checkpoints"], round["owed"], r["id"], r["error"]
+                                ),
+                            });
+                        }
+                    }
+                }
+                Outcome::Held
             }
             _ => Outcome::Inconclusive("not a strace fault".into()),
         }
